@@ -301,7 +301,9 @@ def api_list():
         finder = pd.DAOStarFinder(threshold=thr(U, 5.0), fwhm=3.0)
         grouper = ppsf.SourceGrouper(6.0)
         lbk = pb.LocalBackground(5, 9)
-        ins = dict(data=D, error=E, mask=M, model=model, init_params=init, finder=finder, grouper=grouper, localbkg=lbk)
+        # a table that already uses the canonical column names (nothing to rename: no copy is forced by the renaming)
+        init2 = (Table if U is None else QTable)({'x_init': [p[0] for p in sc['pos']], 'y_init': [p[1] for p in sc['pos']]})
+        ins = dict(data=D, error=E, mask=M, model=model, init_params=init, init_params_canonical=init2, finder=finder, grouper=grouper, localbkg=lbk)
 
         def go():
             ph = ppsf.PSFPhotometry(model, (5, 5), aperture_radius=4, grouper=grouper, localbkg_estimator=lbk, progress_bar=False)
@@ -311,6 +313,10 @@ def api_list():
                 ph(D, mask=M, init_params=init)
             ph.make_model_image(sc['data'].shape)
             ph.make_residual_image(D)
+            try:
+                ph(D, mask=M, init_params=init2)
+            except Exception:                                   # noqa: BLE001
+                pass
             it = ppsf.IterativePSFPhotometry(model, (5, 5), finder=finder, aperture_radius=4, maxiters=2, progress_bar=False)
             try:
                 it(D, error=E, mask=M, init_params=init)
